@@ -18,6 +18,7 @@ class Conn(object):
         self.closed_by_peer = False
         self.greeted = False
         self.stanzas = []          # decoded client stanzas
+        self.raw = bytearray()     # every byte read from the socket
         self.seen = 0
         self.lock = threading.Lock()
 
@@ -42,7 +43,10 @@ class LoopServer(threading.Thread):
         self.errors = []
 
     def run(self):
-        self.lsock.settimeout(0.2)
+        try:
+            self.lsock.settimeout(0.2)
+        except OSError:
+            return
         while not self.stop_flag:
             try:
                 s, _ = self.lsock.accept()
@@ -67,8 +71,14 @@ class LoopServer(threading.Thread):
                 c.closed_by_peer = True
                 return
             if not data:
+                # the client half-closed (or closed): a real server closes its side as well
                 c.closed_by_peer = True
+                try:
+                    c.sock.close()
+                except OSError:
+                    pass
                 return
+            c.raw += data
             try:
                 with c.lock:
                     c.srv.feed(data)
@@ -180,10 +190,26 @@ class RealClient(object):
                 self.thread_errors.append(("pump", type(e).__name__, str(e)[:200], ""))
             n += 1
 
+    def start_loop(self):
+        """What stack.loop() does, in its own thread: deliver deferred events. (A deferred reconnect blocks this thread for
+        the life of the new connection, exactly as it blocks the application's loop thread.)"""
+        self.loop_stop = False
+
+        def run():
+            while not self.loop_stop:
+                self.pump()
+                time.sleep(0.002)
+        t = threading.Thread(target=run, name="verif-loopthread")
+        t.daemon = True
+        t.start()
+        self.loop_thread = t
+
+    def stop_loop(self):
+        self.loop_stop = True
+
     def wait(self, cond, timeout=15.0):
         t0 = time.time()
         while time.time() - t0 < timeout:
-            self.pump()
             if cond():
                 return True
             time.sleep(0.002)
